@@ -147,3 +147,41 @@ Theorem C19_step_le_max_binary64 :
 Proof. exact F_C19_step_le_max. Qed.
 Print Assumptions C19_step_le_max_binary64.
 
+
+Theorem S_end_loop_is_source :
+  forall (NN : Num) (c : cfg NN) (st : ost NN), let r := gen_end_loop NN c (score_cur NN st)
+    (score_start NN st) (kt NN st) (conv_count NN st) (ratio NN st) (loop_rej NN st) in end_loop
+    NN c st = {| params := params NN st; handles := handles NN st; score_cur := score_cur NN st;
+    kt := fst (fst (snd r)); ratio := snd (snd r); conv_count := snd (fst (snd r)); loop_rej :=
+    0; score_start := score_cur NN st; loops_done := N.succ (loops_done NN st); j := 0; calls :=
+    calls NN st; fin := fst r || (loops_of (steps NN c) (inner NN c) <=? N.succ (loops_done NN
+    st))%N; converged := fst r; bad_index := false |}.
+Proof. exact end_loop_is_source. Qed.
+Print Assumptions S_end_loop_is_source.
+
+
+Theorem S_mc_step_is_source :
+  forall (NN : Num) (fexp : carrier NN -> carrier NN) (score : N -> list (carrier NN) -> option
+    (carrier NN)) (c : cfg NN) (st : ost NN) (d : draw NN), mc_step NN fexp score c st d = match
+    gen_mc_step NN fexp score c {| w_params := params NN st; w_handles := handles NN st; w_calls
+    := calls NN st |} (score_cur NN st) (kt NN st) (ratio NN st) (loop_rej NN st) d with | Some
+    (w, sc, rej) => {| params := w_params NN w; handles := w_handles NN w; score_cur := sc; kt
+    := kt NN st; ratio := ratio NN st; conv_count := conv_count NN st; loop_rej := rej;
+    score_start := score_start NN st; loops_done := loops_done NN st; j := N.succ (j NN st);
+    calls := w_calls NN w; fin := false; converged := false; bad_index := false |} | None => {|
+    params := params NN st; handles := handles NN st; score_cur := score_cur NN st; kt := kt NN
+    st; ratio := ratio NN st; conv_count := conv_count NN st; loop_rej := loop_rej NN st;
+    score_start := score_start NN st; loops_done := loops_done NN st; j := j NN st; calls :=
+    calls NN st; fin := true; converged := false; bad_index := true |} end.
+Proof. exact mc_step_is_source. Qed.
+Print Assumptions S_mc_step_is_source.
+
+Theorem S_init_is_source :
+  forall (NN : Num) (c : cfg NN) (ps : list (carrier NN)) (hs : list (handle NN)) (s0 : carrier
+    NN), init NN c ps hs s0 = {| params := ps; handles := hs; score_cur := s0; kt := fst
+    (gen_init NN c); ratio := snd (gen_init NN c); conv_count := gen_init_count; loop_rej := 0;
+    score_start := s0; loops_done := 0; j := 0; calls := 1; fin := (gen_loops NN c =? 0)%N;
+    converged := false; bad_index := false |}.
+Proof. exact init_is_source. Qed.
+Print Assumptions S_init_is_source.
+
